@@ -292,6 +292,12 @@ fn unit_lattice(tier: Tier) -> Vec<[f32; 3]> {
     (0..l * l * l).map(|i| [a[i / (l * l)], a[(i / l) % l], a[i % l]]).collect()
 }
 
+const SHAPES: [(usize, usize); 6] = [(0, 0), (0, 3), (2, 0), (1, 1), (1, 7), (7, 1)];
+
+fn shape_px(k: &[f32], i: u64, w: usize, h: usize) -> Vec<[f32; 3]> {
+    (0..w * h).map(|j| [k[(7 * j + i as usize) % k.len()], k[(11 * j + 3) % k.len()], k[(13 * j + 5 * i as usize) % k.len()]]).collect()
+}
+
 pub fn staged(tier: Tier) -> Staged {
     Staged {
         property: "C13",
@@ -300,6 +306,7 @@ pub fn staged(tier: Tier) -> Staged {
             ("special cubes through composite conversions".into(), composite_ops(tier).len() as u64),
             ("stratified bit patterns per component".into(), strat_ops().len() as u64 * 4),
             ("unit-cube lattice: finite in, finite out".into(), (single_stage_ops().len() + composite_ops(tier).len()) as u64),
+            ("degenerate shapes: zero-pixel, single-pixel, one-column images".into(), (single_stage_ops().len() + composite_ops(tier).len()) as u64),
         ],
         run: run_stage,
         case_of,
@@ -336,6 +343,25 @@ fn run_stage(tier: Tier, stage: usize, lo: u64, hi: u64) -> Acc {
                 strat_case(acc, tier, i, &ops[(i / 4) as usize], (i % 4) as u8);
             })
         }
+        4 => {
+            let mut ops = single_stage_ops();
+            ops.extend(composite_ops(tier));
+            let k = k48();
+            par_chunks(n, 1, |acc, a, _| {
+                let i = lo + a;
+                let op = &ops[i as usize];
+                let to_yuv = matches!(op, Op::Encode(..) | Op::LinToYuv(..) | Op::XybToYuv(..));
+                for (w, h) in SHAPES {
+                    // v_frame cannot iterate a zero-width plane that has rows (its PlaneIter underflows),
+                    // so `Yuv::new` itself panics on a 0xN u16 frame: outside every property's domain
+                    if to_yuv && w == 0 && h > 0 {
+                        continue;
+                    }
+                    let px = shape_px(&k, i, w, h);
+                    check_image(acc, i, op, "degenerate shapes", &px, w, h, false, &|| json!({"kind":"c13shape","op":op_json(op),"w":w,"h":h,"i":i,"tier":tier.name()}));
+                }
+            })
+        }
         _ => {
             let mut ops = single_stage_ops();
             ops.extend(composite_ops(tier));
@@ -362,6 +388,11 @@ fn case_of(tier: Tier, stage: usize, i: u64) -> Value {
         0 => json!({"kind":"c13cube","k":48,"op":op_json(&single_stage_ops()[i as usize])}),
         1 => json!({"kind":"c13cube","k":if tier == Tier::Quick {16} else {48},"op":op_json(&composite_ops(tier)[i as usize])}),
         2 => json!({"kind":"c13stratcase","op":op_json(&strat_ops()[(i / 4) as usize]),"placement":i % 4,"tier":tier.name()}),
+        4 => {
+            let mut ops = single_stage_ops();
+            ops.extend(composite_ops(tier));
+            json!({"kind":"c13shapes","op":op_json(&ops[i as usize]),"i":i,"tier":tier.name()})
+        }
         _ => {
             let mut ops = single_stage_ops();
             ops.extend(composite_ops(tier));
@@ -375,7 +406,7 @@ pub fn run(tier: Tier) -> Report {
     let st = staged(tier);
     run_staged(tier, &st, &mut rep);
     rep.bound = format!(
-        "stages (each in a child process): {}; special alphabet = 48 values (+-0, subnormals, thresholds, 1.5, 255, 65535.5, 1e10, 3e38, max, inf, quiet/signalling NaN), full cubes through all 14x11 curve/primaries pairs in both directions, all 140 encode configs, XYB and HSL both ways, and the composite LinearRgb/Xyb->Yuv, Rgb<->Xyb paths over 14 curves x 11 primaries x 7 matrices x 2 ranges x depths; stratified = every f32 bit pattern whose low {} bits are all-0 or all-1 ({} patterns) on each component in turn (others 0.5) and on all three; unit cube lattice {}^3 for finiteness",
+        "stages (each in a child process): {}; special alphabet = 48 values (+-0, subnormals, thresholds, 1.5, 255, 65535.5, 1e10, 3e38, max, inf, quiet/signalling NaN), full cubes through all 14x11 curve/primaries pairs in both directions, all 140 encode configs, XYB and HSL both ways, and the composite LinearRgb/Xyb->Yuv, Rgb<->Xyb paths over 14 curves x 11 primaries x 7 matrices x 2 ranges x depths; stratified = every f32 bit pattern whose low {} bits are all-0 or all-1 ({} patterns) on each component in turn (others 0.5) and on all three; unit cube lattice {}^3 for finiteness; every conversion on 0x0, 0x3, 2x0, 1x1, 1x7 and 7x1 images of special values (0x3 only where no YUV frame is built)",
         st.stages.iter().map(|(n, t)| format!("{n}: {t} cases")).collect::<Vec<_>>().join("; "),
         strat_bits(tier), strat_len(tier), tier.pick(15, 23)
     );
@@ -386,6 +417,8 @@ pub fn run(tier: Tier) -> Report {
     rep.guard_bucket("stratified patterns: YUV produced, all codes valid, re-wrappable");
     rep.guard_bucket("unit-cube lattice: float image produced");
     rep.guard_bucket("unit-cube lattice: YUV produced, all codes valid, re-wrappable");
+    rep.guard_bucket("degenerate shapes: float image produced");
+    rep.guard_bucket("degenerate shapes: YUV produced, all codes valid, re-wrappable");
     rep
 }
 
@@ -415,6 +448,19 @@ pub fn replay(case: &Value) -> (bool, String) {
             check_image(&mut acc, 0, &op, "stratified patterns", &px, n, 1, false, &|| json!(null));
         }
         "c13stratcase" => strat_case(&mut acc, tier, 0, &op, case["placement"].as_u64().unwrap() as u8),
+        "c13shape" | "c13shapes" => {
+            let i = case["i"].as_u64().unwrap();
+            let to_yuv = matches!(op, Op::Encode(..) | Op::LinToYuv(..) | Op::XybToYuv(..));
+            for (w, h) in SHAPES {
+                if case["kind"] == "c13shape" && (case["w"].as_u64() != Some(w as u64) || case["h"].as_u64() != Some(h as u64)) {
+                    continue;
+                }
+                if to_yuv && w == 0 && h > 0 {
+                    continue;
+                }
+                check_image(&mut acc, 0, &op, "degenerate shapes", &shape_px(&k48(), i, w, h), w, h, false, &|| json!(null));
+            }
+        }
         _ => {
             let px = unit_lattice(tier);
             let len = px.len();
